@@ -8,7 +8,8 @@ from vlib import *
 import py2v
 
 ORACLE_ID = {'exp_': 0, 'log_': 1, 'norm_cdf': 2, 'norm_pdf': 3, 'norm_ppf': 4,
-             'poisson_pmf': 5, 'poisson_cdf': 6, 'poisson_ppf': 7, 'gss_x': 8, 'gss_f': 9}
+             'poisson_pmf': 5, 'poisson_cdf': 6, 'poisson_ppf': 7, 'gss_x': 8, 'gss_f': 9, 'pow_': 20, 'powi': 21,
+             'gamma_pdf': 100, 'gamma_cdf': 101, 'gamma_mean': 102, 'nbinom_pmf': 103, 'nbinom_cdf': 104}
 
 
 def cfloat(x):
@@ -49,9 +50,10 @@ class Recorder:
     """context manager: records (oracle id, [args], value) for every library call made inside"""
     MODS = ['loss_functions', 'newsvendor', 'supply_uncertainty', 'eoq', 'optimization']
 
-    def __init__(self):
+    def __init__(self, extra_mods=()):
         self.tbl = []
         self.undo = []
+        self.extra_mods = list(extra_mods)
 
     def add(self, name, args, val):
         try:
@@ -86,6 +88,14 @@ class Recorder:
             return r
         return w
 
+    def wrap_kw(self, name, orig, npos, kw):
+        def w(*a, **k):
+            r = orig(*a, **k)
+            if len(a) == npos and sorted(k) == ([kw] if kw else []):
+                self.add(name, list(a) + ([k[kw]] if kw else []), r)
+            return r
+        return w
+
     def wrap_pois(self, nm, orig):
         def w(*a, **k):
             r = orig(*a, **k)
@@ -99,8 +109,12 @@ class Recorder:
             setattr(st.norm, nm, self.wrap_norm(nm, getattr(st.norm, nm))); self.undo.append(('del', st.norm, nm))
         for nm in ('pmf', 'cdf', 'ppf'):
             setattr(st.poisson, nm, self.wrap_pois(nm, getattr(st.poisson, nm))); self.undo.append(('del', st.poisson, nm))
+        for nm, npos in (('pdf', 2), ('cdf', 2), ('mean', 1)):
+            setattr(st.gamma, nm, self.wrap_kw('gamma_' + nm, getattr(st.gamma, nm), npos, 'scale')); self.undo.append(('del', st.gamma, nm))
+        for nm in ('pmf', 'cdf'):
+            setattr(st.nbinom, nm, self.wrap_kw('nbinom_' + nm, getattr(st.nbinom, nm), 3, None)); self.undo.append(('del', st.nbinom, nm))
         mods = [importlib.import_module('stockpyl.' + m) for m in self.MODS]     # import everything BEFORE patching
-        for m, mod in zip(self.MODS, mods):
+        for m, mod in list(zip(self.MODS, mods)) + [('twin', x) for x in self.extra_mods]:
             for attr, real in (('np', np), ('math', math)):
                 if getattr(mod, attr, None) is real:
                     setattr(mod, attr, _Proxy(real, self)); self.undo.append(('set', mod, attr, real))
@@ -154,27 +168,87 @@ def squared_variant(modname):
     return _SQ[modname]
 
 
+# ---- the same module with every `a ** b` (b not the literal 2) routed through a recording function: Python's float power
+# cannot be intercepted otherwise.  The twin is only used to RECORD the values of libm pow on the arguments that occur;
+# its results must be bit-identical to those of the real module.
+_POW = {}
+_CUR = [None]
+
+
+def _rec_pow(a, b):
+    r = a ** b
+    if _CUR[0] is not None: _CUR[0].add('pow_', [a, b], r)
+    return r
+
+
+def _rec_powi(a, k):
+    r = a ** k
+    if _CUR[0] is not None: _CUR[0].add('powi', [a, k], r)
+    return r
+
+
+class _PowT(ast.NodeTransformer):
+    def visit_BinOp(self, node):
+        self.generic_visit(node)
+        if isinstance(node.op, ast.Pow):
+            r = node.right
+            lit = isinstance(r, ast.Constant) and isinstance(r.value, int) and not isinstance(r.value, bool)
+            if lit and r.value == 2: return node
+            return ast.copy_location(ast.Call(func=ast.Name(id='__rec_powi__' if lit else '__rec_pow__', ctx=ast.Load()), args=[node.left, r], keywords=[]), node)
+        return node
+
+
+def pow_variant(modname):
+    if modname not in _POW:
+        path = os.path.join(REPO_SRC, 'stockpyl', modname + '.py')
+        with warnings.catch_warnings():
+            warnings.simplefilter('ignore')
+            tree = ast.fix_missing_locations(_PowT().visit(ast.parse(open(path).read())))
+            m = types.ModuleType('stockpyl_pow_' + modname)
+            m.__dict__['__file__'] = path
+            m.__dict__['__rec_pow__'] = _rec_pow; m.__dict__['__rec_powi__'] = _rec_powi
+            exec(compile(tree, path, 'exec'), m.__dict__)
+        _POW[modname] = m
+    return _POW[modname]
+
+
 def call_impl(q, args):
     """-> ('ok', [floats]) | ('ValueError', msg) | ('other', kind, msg), recorded oracle table"""
-    m, f = q.split('.')
+    info = py2v.FUNCS[q]; m, f = info['module'], info['name']
+    args = dict(args, **info.get('static', {}))
     fn = getattr(importlib.import_module('stockpyl.' + m), f)
-    rec = Recorder()
+    uses_pow = bool({'pow_', 'powi'} & set(info['oracles']))
+    twin = pow_variant(m) if uses_pow else None
+
+    def run(fun):
+        try:
+            r = fun(**args)
+            r = list(r) if isinstance(r, tuple) else [r]
+            return ('ok', [float(x) for x in r])
+        except ValueError as e:
+            return ('ValueError', str(e)[:120])
+        except Exception as e:
+            return ('other', exc_kind(e), str(e)[:120])
+    rec = Recorder(extra_mods=[twin] if twin else [])
     with warnings.catch_warnings():
         warnings.simplefilter('ignore')
-        with rec:
-            try:
-                r = fn(**args)
-                r = list(r) if isinstance(r, tuple) else [r]
-                out = ('ok', [float(x) for x in r])
-            except ValueError as e:
-                out = ('ValueError', str(e)[:120])
-            except Exception as e:
-                out = ('other', exc_kind(e), str(e)[:120])
+        if twin is None:
+            with rec:
+                out = run(fn)
+        else:
+            out = run(fn)                                   # the real function gives the result ...
+            with rec:
+                _CUR[0] = rec
+                try: out2 = run(getattr(twin, f))           # ... the twin only records
+                finally: _CUR[0] = None
+            if out[0] == 'ok' and (out2[0] != 'ok' or not all(same_bits(a, b) for a, b in zip(out[1], out2[1]))):
+                out = ('other', 'pow-twin-differs', '%r vs %r' % (out, out2))
     return out, rec
 
 
 def call_squared(q, args):
-    m, f = q.split('.')
+    info = py2v.FUNCS[q]; m, f = info['module'], info['name']
+    args = dict(args, **info.get('static', {}))
     fn = getattr(squared_variant(m), f)
     with warnings.catch_warnings():
         warnings.simplefilter('ignore')
@@ -191,7 +265,7 @@ def call_squared(q, args):
 def coq_call(q, args, rec):
     """Gallina expression evaluating the translated function q at FOps on args, observed exactly"""
     info = py2v.FUNCS[q]
-    m, f = q.split('.')
+    m, f = info['module'], info.get('coqname', info['name'])
     parts = []
     for p in info['params']:
         v = args.get(p['name'], '__default__')
@@ -234,7 +308,7 @@ def run_tie(chk, cases, tag='tie'):
     vals = coq_eval_sharded('c10' + tag, tie_imports([t[0] for t in todo]), TIE_DEFS, [t[3] for t in todo], shard=200)
     for (q, args, impl, _), v in zip(todo, vals):
         chk.traces += 1
-        chk.count('tie_' + q.split('.')[1])
+        chk.count('tie_' + q.split('.', 1)[1])
         if impl[0] == 'ValueError':
             chk.count('tie_ValueError')
             if v is not None:
